@@ -916,10 +916,15 @@ class VMF:
 
         # The worldspawn version should always match the global value.
         # Also force the classname, since this will crash if it's different.
+        # If the entity has such a key of its own (an entity lump does), put it back afterwards.
+        spawn_version = self.spawn['mapversion'] if 'mapversion' in self.spawn else None
         self.spawn['mapversion'] = str(self.map_ver)
         self.spawn['classname'] = 'worldspawn'
         self.spawn.export(dest_file, disp_multiblend=disp_multiblend, _is_worldspawn=True)
-        del self.spawn['mapversion']
+        if spawn_version is None:
+            del self.spawn['mapversion']
+        else:
+            self.spawn['mapversion'] = spawn_version
 
         for ent in self.entities:
             ent.export(dest_file, disp_multiblend=disp_multiblend)
